@@ -96,6 +96,20 @@ Ltac binv2 :=
   | H : as_bool (Ok (PBool ?b)) = Ok _ |- _ => cbn [as_bool bind py_truth] in H
   end.
 
+(** binv2 plus the  try: x = e  except E: ...  shape (a match on the result of e) *)
+Ltac binv3 :=
+  repeat match goal with
+  | H : Err _ = Ok _ |- _ => discriminate H
+  | H : Ok _ = Ok _ |- _ => first [ discriminate H | injection H as H; try subst | clear H ]
+  | H : bind ?e ?k = Ok _ |- _ =>
+      let E := fresh "E" in destruct e eqn:E; cbn [bind] in H; [|discriminate H]
+  | H : (if ?b then _ else _) = Ok _ |- _ =>
+      first [ is_var b; destruct b | let B := fresh "B" in destruct b eqn:B ]
+  | H : match ?e with Ok _ => _ | Err _ => _ end = Ok _ |- _ =>
+      let E := fresh "E" in destruct e eqn:E
+  | H : as_bool (Ok (PBool ?b)) = Ok _ |- _ => cbn [as_bool bind py_truth] in H
+  end.
+
 (** the exact value python compares: an int is NOT rounded to a float first *)
 Definition num_exact (n : num) : pyfloat :=
   match n with NZ z => Fin z 0 | NF f => f end.
@@ -227,30 +241,66 @@ Qed.
 Ltac num_cases v B :=
   destruct v; try discriminate B.
 
+(** the other spelling of the range test:  not lo <= v <= hi  instead of  v < lo or v > hi.
+    lo <= v true means v is not below lo (and not a NaN); v <= hi true means v is not above hi *)
+Lemma py_le_lo_lt v lo : py_le (PFloat lo) v = Ok true -> py_lt v (PFloat lo) = Ok false.
+Proof.
+  unfold py_le, py_lt, py_order. cbn [as_num]. destruct (as_num v) as [n|] eqn:Hn.
+  - destruct n as [z|f]; cbn [cmp_num].
+    + rewrite (f_cmp_opp lo (Fin z 0)). destruct (f_cmp lo (Fin z 0)) as [[| |]|]; cbn [CompOpp]; intros H; try discriminate H; reflexivity.
+    + rewrite (f_cmp_opp lo f). destruct (f_cmp lo f) as [[| |]|]; cbn [CompOpp]; intros H; try discriminate H; reflexivity.
+  - destruct v; discriminate.
+Qed.
+Lemma py_le_hi_gt v hi : py_le v (PFloat hi) = Ok true -> py_gt v (PFloat hi) = Ok false.
+Proof.
+  unfold py_le, py_gt, py_order. destruct (as_num v) as [n|] eqn:Hn; cbn [as_num].
+  - destruct (cmp_num n (NF hi)) as [[| |]|]; intros H; try discriminate H; reflexivity.
+  - destruct v; discriminate.
+Qed.
+
+(** hypotheses left by binv2 are brought to the shape the range lemmas expect, whichever way the
+    source spells the test *)
+Ltac norm_range :=
+  repeat match goal with
+  | B : negb ?a = false |- _ => is_var a; destruct a; [clear B|discriminate B]
+  | B : negb ?a = true |- _ => is_var a; destruct a; [discriminate B|clear B]
+  | H : py_le (PFloat (Fin ?m ?e)) ?v = Ok true |- _ => apply py_le_lo_lt in H
+  | H : py_le ?v (PFloat (Fin ?m ?e)) = Ok true |- _ => apply py_le_hi_gt in H
+  end.
+
+(** closes a closed numeric side condition by computation; refuses a goal that still has holes or variables
+    left by a failed eassumption (vm_compute on such a goal can run away) *)
+Ltac closed_compute :=
+  match goal with |- ?g => tryif has_evar g then fail "side condition not determined" else (vm_compute; reflexivity) end.
+
+(** cases of v that are not numbers die on some hypothesis that computes to an error *)
+Ltac kill_absurd :=
+  solve [ match goal with E : _ = _ |- _ =>
+            cbn [py_isinstance existsb isinstance1 orb negb andb py_lt py_gt py_le py_ge py_order as_num py_mul arith py_float] in E;
+            match type of E with
+            | Err _ = Ok _ => discriminate E
+            | true = false => discriminate E
+            | false = true => discriminate E
+            end end ].
+Ltac num_split v := destruct v; try kill_absurd.
+
 (** ST_Percentage: validate_float_in_range(value, -21474.83648, 21474.83647) and
     str(int(round(value * 100000.0))): an xsd:int *)
 Theorem W_Percentage : forall v s,
   ST_Percentage__to_xml v = Ok (PStr s) -> lex_ok (LInt (-2147483648) 2147483647) s = true.
 Proof.
-  intros v s H.
-  unfold ST_Percentage__to_xml, ST_Percentage__validate, ST_Percentage__validate_float_in_range,
-    ST_Percentage__validate_float, ST_Percentage__convert_to_xml in H.
-  binv2.
-  match goal with B : negb _ = false |- _ => num_cases v B end;
-    (eapply W_round_scaled; try eassumption; [reflexivity|..]; vm_compute; reflexivity).
+  intros v s. unfold_gen. intros H. binv3;
+  num_split v; norm_range;
+    (eapply W_round_scaled; try eassumption; [reflexivity|..]; closed_compute).
 Qed.
 
 (** ST_PositiveFixedPercentage: range 0.0 .. 1.0, written 0 .. 100000 *)
 Theorem W_PositiveFixedPercentage : forall v s,
   ST_PositiveFixedPercentage__to_xml v = Ok (PStr s) -> lex_ok (LInt 0 100000) s = true.
 Proof.
-  intros v s H.
-  unfold ST_PositiveFixedPercentage__to_xml, ST_PositiveFixedPercentage__validate,
-    ST_PositiveFixedPercentage__validate_float_in_range,
-    ST_PositiveFixedPercentage__validate_float, ST_PositiveFixedPercentage__convert_to_xml in H.
-  binv2.
-  match goal with B : negb _ = false |- _ => num_cases v B end;
-    (eapply W_round_scaled; try eassumption; [reflexivity|..]; vm_compute; reflexivity).
+  intros v s. unfold_gen. intros H. binv3;
+  num_split v; norm_range;
+    (eapply W_round_scaled; try eassumption; [reflexivity|..]; closed_compute).
 Qed.
 
 (** ST_TextSpacingPercentOrPercentString: range 0.0 .. 132.0, written 0 .. 13200000 *)
@@ -258,15 +308,9 @@ Theorem W_TextSpacingPercent : forall v s,
   ST_TextSpacingPercentOrPercentString__to_xml v = Ok (PStr s) ->
   lex_ok (LInt 0 13200000) s = true.
 Proof.
-  intros v s H.
-  unfold ST_TextSpacingPercentOrPercentString__to_xml,
-    ST_TextSpacingPercentOrPercentString__validate,
-    ST_TextSpacingPercentOrPercentString__validate_float_in_range,
-    ST_TextSpacingPercentOrPercentString__validate_float,
-    ST_TextSpacingPercentOrPercentString__convert_to_xml in H.
-  binv2.
-  match goal with B : negb _ = false |- _ => num_cases v B end;
-    (eapply W_round_scaled; try eassumption; [reflexivity|..]; vm_compute; reflexivity).
+  intros v s. unfold_gen. intros H. binv3;
+  num_split v; norm_range;
+    (eapply W_round_scaled; try eassumption; [reflexivity|..]; closed_compute).
 Qed.
 
 (** ST_TextFontScalePercentOrPercentString: a finite number with 1.0 <= value <= 100.0,
@@ -275,13 +319,9 @@ Theorem W_TextFontScalePercent : forall v s,
   ST_TextFontScalePercentOrPercentString__to_xml v = Ok (PStr s) ->
   lex_ok (LInt 1000 100000) s = true.
 Proof.
-  intros v s H.
-  unfold ST_TextFontScalePercentOrPercentString__to_xml,
-    ST_TextFontScalePercentOrPercentString__validate, BaseFloatType__validate,
-    ST_TextFontScalePercentOrPercentString__convert_to_xml in H.
-  binv2.
-  match goal with B : negb _ = false |- _ => num_cases v B end;
-    (eapply W_trunc_scaled; try eassumption; [reflexivity|..]; vm_compute; reflexivity).
+  intros v s. unfold_gen. intros H. binv3;
+  num_split v; norm_range;
+    (eapply W_trunc_scaled; try eassumption; [reflexivity|..]; closed_compute).
 Qed.
 
 (** non-vacuity, the end points, and the NaN / bool / int cases *)
